@@ -96,6 +96,7 @@ func fillHistory(h *History, answer string) error {
 		if err != nil {
 			return err
 		}
+		m.KeepErr = h.Cfg.CustomErr
 		h.Model = append(h.Model, m)
 		sp := map[string]string{}
 		for _, s := range a.List {
